@@ -147,6 +147,8 @@ static std::string do_run(std::istringstream& in) {
   size_t tri = (size_t)n * (n - 1) / 2;
   return guarded([&]() -> std::string {
     if (form == "lower") { if (data.size() != tri) return "badinput"; return run_auto(Lower(vals(data, sq)), dim_max, thr, modulus, sq); }
+    // the dense engine itself, with the threshold given explicitly (ripser_auto would convert a thresholded dense input to sparse)
+    if (form == "lowerdirect") { if (data.size() != tri) return "badinput"; return run_auto(Lower(vals(data, sq)), dim_max, thr, modulus, sq, true); }
     if (form == "upper") { if (data.size() != tri) return "badinput"; return run_auto(Upper(vals(data, sq)), dim_max, thr, modulus, sq); }
     if (form == "upconv") { if (data.size() != tri) return "badinput"; Upper u(vals(data, sq)); return run_auto(Lower(u), dim_max, thr, modulus, sq); }
     if (form == "full") { if (data.size() != tri) return "badinput"; Lower l(vals(data, sq)); return run_auto(FullM(l), dim_max, thr, modulus, sq); }
